@@ -73,15 +73,23 @@ def bestVal : FMap → Nat → Option Nat
     | none => if fr ≤ v then some v else none
     | some b => if fr ≤ v then some (min v b) else some b
 
+/-- keys whose value is `b` -/
+def keysWith (m : FMap) (b : Nat) : List Nat := ((m.map Prod.fst).filter (fun k => fget m k == some b)).eraseDups
+
 /-- `best_fraction_match`: `filter(f >= fractions).min_by_key(f)` over a hash map. Which of several indices with the
 same minimal value is returned depends on the hash order: the observed index is the choice input `pick`; it is
-checked to be one of the minimal candidates. Result: `(index, its current value)`. -/
+checked to be one of the minimal candidates. When no pick was recorded — the operation panicked later, so no
+allocation was returned to read it from, and no output depends on the pick — the first candidate is taken.
+Result: `(index, its current value)`. -/
 def bestMatch (m : FMap) (fr : Nat) (pick : Option Nat) : Except Stop (Option (Nat × Nat)) :=
   match bestVal m fr with
   | none => .ok none
   | some b =>
     match pick with
-    | none => .error .badChoice
+    | none =>
+      match keysWith m b with
+      | p :: _ => if fget m p = some b then .ok (some (p, b)) else .error .badChoice
+      | [] => .error .badChoice
     | some p => if fget m p = some b then .ok (some (p, b)) else .error .badChoice
 
 /-! ### one group of an index pool -/
